@@ -108,7 +108,7 @@ class PathEval:
             k = pr["k"]
             if k == "deref":
                 if cur[0] in ("ptr", "sptr"):
-                    cur = self._load(st, cur[1])
+                    cur = ("mem", cur[1][0], cur[1][1])     # settle after the fields: the most specific cell written wins
                 elif cur[0] == "arg" and not cur[2] and self._is_ptr_param(cur[1]):
                     cur = ("mem", cur[1], ())
                 elif cur[0] == "site":
